@@ -214,7 +214,8 @@ def lazy(ctx):
             return attr_chain(n) == ["self", "transform"] or (isinstance(n, ast.Name) and n.id in mats)
 
         resets = [c for c in ast.walk(fn) if isinstance(c, ast.Call) and isinstance(c.func, ast.Attribute) and c.func.attr == "reset" and is_mat(c.func.value)]
-        applied = [n for n in ast.walk(fn) if isinstance(n, ast.AugAssign) and isinstance(n.op, ast.Mult) and is_mat(n.value)]
+        applied = [n for n in ast.walk(fn) if (isinstance(n, ast.AugAssign) and isinstance(n.op, ast.Mult) and is_mat(n.value))
+                   or (isinstance(n, ast.BinOp) and isinstance(n.op, ast.Mult) and is_mat(n.right) and not is_mat(n.left))]
         top_reset = [x for x in body if isinstance(x, ast.Expr) and any(x.value is c for c in resets)]
         ok = len(resets) == 1 and len(top_reset) == 1 and bool(applied) and max(a.lineno for a in applied) < resets[0].lineno
         detail = "applied at lines %s, reset at %s" % ([a.lineno for a in applied], [c.lineno for c in resets])
@@ -231,9 +232,12 @@ def lazy(ctx):
                 if isinstance(x, ast.Assign) and len(x.targets) == 1:
                     pairs = list(zip(x.targets[0].elts, x.value.elts)) if isinstance(x.targets[0], ast.Tuple) and isinstance(x.value, ast.Tuple) and len(x.targets[0].elts) == len(x.value.elts) else [(x.targets[0], x.value)]
                     for tg, v in pairs:
+                        mapped = False
+                        if isinstance(v, ast.BinOp) and isinstance(v.op, ast.Mult) and is_mat(v.right):
+                            v, mapped = v.left, True  # Point(a, b) * M: built and mapped in one expression
                         if isinstance(tg, ast.Name) and call_name(v) == "Point" and len(v.args) == 2:
                             a0, a1 = attr_chain(v.args[0]), attr_chain(v.args[1])
-                            state[tg.id] = ("pt", (a0 or ["?"])[-1], (a1 or ["?"])[-1], False)
+                            state[tg.id] = ("pt", (a0 or ["?"])[-1], (a1 or ["?"])[-1], mapped)
                         elif isinstance(tg, ast.Attribute) and attr_chain(tg) and attr_chain(tg)[0] == "self" and isinstance(v, ast.Attribute) and isinstance(v.value, ast.Name) and v.value.id in state:
                             stores[attr_chain(tg)[1]] = (state[v.value.id], v.attr, x.lineno)
                 elif isinstance(x, ast.AugAssign) and isinstance(x.op, ast.Mult) and isinstance(x.target, ast.Name) and x.target.id in state and is_mat(x.value):
@@ -286,6 +290,21 @@ def reify_algebra(ctx):
                     ctx.need(s.body and isinstance(s.body[-1], ast.Return), "R02.4", "%s: negated guard does not leave the function" % qual)
                     block = list(s.orelse) + [x for x in fn.body[i_ + 1:]]
         ctx.need(guard is not None, "R02.4", "%s: no-skew guard not found" % qual)
+        # compute-then-commit: `try: <locals> except ...: return self` before anything of self is written - the exceptional exit
+        # leaves the shape as it was, the normal path is the try body followed by the rest
+        flat = []
+        wrote_self = False
+        for x in block:
+            if isinstance(x, ast.Try) and not x.finalbody and not x.orelse and not wrote_self \
+                    and all(len(h.body) == 1 and isinstance(h.body[0], ast.Return) and isinstance(h.body[0].value, ast.Name) and h.body[0].value.id == "self" for h in x.handlers) \
+                    and all(isinstance(y, ast.Assign) and all(isinstance(t, ast.Name) for t in y.targets) for y in x.body):
+                flat.extend(x.body)
+                continue
+            if any(isinstance(n, ast.Attribute) and isinstance(n.ctx, ast.Store) and attr_chain(n) and attr_chain(n)[0] == "self" for n in ast.walk(x)) \
+                    or (isinstance(x, ast.Expr) and isinstance(x.value, ast.Call)):
+                wrote_self = True
+            flat.append(x)
+        block = flat
         block = [x for x in block if not (isinstance(x, ast.Return) and (x.value is None or (isinstance(x.value, ast.Name) and x.value.id == "self")))]
         acc = {"value_scale_x": 0, "value_skew_x": 1, "value_skew_y": 2, "value_scale_y": 3, "value_trans_x": 4, "value_trans_y": 5}
         # accessor semantics are read from Matrix
